@@ -225,8 +225,13 @@ func genSubsets(t *rapid.T, table string) [][]string {
 	return out
 }
 
-func TestCodec(t *testing.T) {
-	rapid.Check(t, func(t *rapid.T) {
+func TestCodec(t *testing.T) { rapid.Check(t, propCodec) }
+
+// FuzzCodec: the same property driven by the coverage-guided engine (thorough tier).
+func FuzzCodec(f *testing.F) { f.Fuzz(rapid.MakeFuzz(propCodec)) }
+
+func propCodec(t *rapid.T) {
+	{
 		table := rapid.SampledFrom(sw.Tables).Draw(t, "table")
 		row := sw.GenRow(t, table, rapid.IntRange(1, 5).Draw(t, "id"))
 		subsets := genSubsets(t, table)
@@ -239,7 +244,7 @@ func TestCodec(t *testing.T) {
 		if nt {
 			rec.Sample(strings.Join(labels, "+"), map[string]interface{}{"table": table, "row": sw.Describe(row), "filter_column_subsets": subsets})
 		}
-	})
+	}
 }
 
 func TestProtoFilter(t *testing.T) {
